@@ -167,6 +167,57 @@ pub fn main(tier: Tier, seed: u64) -> i32 {
             rep.sample(json!({"config": r.name, "example_schedule": "default policy with deviations", "deviation_kinds": ["Swap(k): take k-th enabled action", "Starve(a): postpone a until nothing else is enabled"], "schedules": r.schedules}));
         }
     }
+    // ---- shape sweep: the invariants on many configurations under a few global policies --------
+    let mut shapes: Vec<(String, MpcCase)> = vec![];
+    for (n, ands) in if tier.is_thorough() { vec![(2usize, 1001usize), (2, 2001), (2, 9001), (3, 1001), (3, 2001)] } else { vec![(2, 1001), (2, 2001), (3, 1001)] } {
+        let c = crate::circuits::and_chain(n, ands);
+        for p_eval in [0, n - 1] {
+            shapes.push((format!("chain{ands}/n{n}/e{p_eval}"), MpcCase { inputs: c.inputs_from_mask(0b11), circ: c.clone(), p_eval, p_out: vec![0, n - 1], tmp_mask: 0b10 }));
+        }
+    }
+    for n in [2usize, 3, 4] {
+        for (name, c) in crate::circuits::feature_circuits(n).into_iter().take(if tier.is_thorough() { 8 } else if n == 4 { 1 } else { 3 }) {
+            for p_eval in if n == 4 { vec![1] } else { (0..n).collect::<Vec<_>>() } {
+                shapes.push((format!("{name}/n{n}/e{p_eval}"), MpcCase { inputs: c.inputs_from_mask(0b101), circ: c.clone(), p_eval, p_out: (0..n).collect(), tmp_mask: 0 }));
+            }
+        }
+    }
+    let mut shape_runs: Vec<(usize, Option<usize>, u8)> = vec![];
+    for si in 0..shapes.len() {
+        for cap in [Some(1), None] {
+            for policy in 0..3u8 {
+                shape_runs.push((si, cap, policy));
+            }
+        }
+    }
+    let shape_res = crate::util::par_map(&shape_runs, |w, _, (si, cap, policy)| {
+        let case = &shapes[*si].1;
+        let cfg = ExecCfg::new(case.n(), mix(seed, 13)).cap(*cap);
+        let r = crate::exec::run(
+            &cfg,
+            mpc_body(case, 710 + w),
+            &mut |en, _| match policy {
+                0 => 0,
+                1 => en.len() - 1,
+                _ => en.iter().position(|a| matches!(a, crate::exec::Action::Run(_))).unwrap_or(0),
+            },
+            false,
+        );
+        (oracle(case, &r), r.actions)
+    });
+    let mut shape_ok = 0u64;
+    for ((si, cap, policy), (res, actions)) in shape_runs.iter().zip(shape_res.iter()) {
+        total_sched += 1;
+        total_trans += *actions as u64;
+        match res {
+            Ok(()) => shape_ok += 1,
+            Err(e) => {
+                let class = if e.contains("deadlock") { "deadlock" } else if e.contains("outstanding") { "two_outstanding_ops" } else if e.contains("issued the send of") { "reveal_before_commit" } else { "wrong_result_or_error" };
+                rep.violation(format!("{class}:shape"), format!("{} cap={cap:?} policy={policy}: {e}", shapes[*si].0), json!({"kind":"c12_shape","case":shapes[*si].1,"capacity":cap,"policy":policy,"seed":mix(seed,13)}));
+            }
+        }
+    }
+    rep.set("shape_sweep", json!({"configurations": shapes.len(), "runs": shape_runs.len(), "ok": shape_ok, "policies": ["default", "always the last enabled action", "run a woken party before any delivery"]}));
     rep.evaluations = total_sched;
     rep.distinct_nontrivial = total_sched;
     rep.set("states", json!(total_states));
